@@ -243,7 +243,12 @@ class FilteredResourceObserver:
         if new_main is None:
             return None
         diff = resource.path[len(main.path) :]
-        return resource.project.get_resource(new_main.path + diff)
+        new_path = new_main.path + diff
+        # The observed resource may not exist any more (it was moved or
+        # removed earlier); do not require it to exist at the new location.
+        if resource.is_folder():
+            return resource.project.get_folder(new_path)
+        return resource.project.get_file(new_path)
 
 
 class ChangeIndicator:
